@@ -841,14 +841,15 @@ def c12_extra(ctx, cases, for_c08=False):
                 "AssignmentQualityInfo recomputed declaratively from the raw export in Coq)"
         elif not for_c08 and not c & 8:
             w = "C12: a document of the wrong kind / schema version / without or with several unselected tracks / with an unknown track was accepted"
-        elif not c & 1:
+        elif (c & 33) != 33:
             dis.append(r)
         if w:
             viol.append((w, ctx.replay({"kind": "failing-input", "stream": "cderead", "what": w, "case": brief_cde(r)}), False))
     if dis and not viol:
         r = min(dis, key=lambda r: len(json.dumps(r["export"])))
-        what = "correspondence CorrCde.check_read: cdedb::read and the model Json.read_full differ (participants, choices/penalties, courses, sizes, " \
-               "instructors, hidden names, external quality data, ids, or acceptance)"
+        what = "correspondence CorrCde.check_read: cdedb::read differs from the transcription Json.read_fields or from the declarative specification " \
+               "CdeSpec.spec_read (participants, choices/penalties, courses, sizes, instructors, hidden names, room fields, external quality " \
+               "data, ids, or acceptance)"
         rp = ctx.replay({"kind": "no-failing-input-found", "stream": "cderead", "broken": what, "first_disagreeing_case": brief_cde(r), "impl_full": r["impl_full"],
                          "disagreements": len(dis)})
         viol.append(("%s (%d cases)" % (what, len(dis)), rp, True))
